@@ -313,6 +313,8 @@ def c04_annotations(run, v1, ed):
                 created[start + 1] = ("SymAddrConst", ("L2",), 0)
             elif pn == "callg":
                 created[start + 1] = ("SymAddrConst", ("g",), 0)
+            elif pn == "embdata":
+                created[start + 1] = ("SymAddrConst", ("PD",), 0)
             elif pn == "twocalls":
                 created[start + 1] = ("SymAddrConst", ("g",), 0)
                 created[start + 7] = ("SymAddrConst", ("g",), 0)
@@ -362,6 +364,10 @@ def c06_functions(run, v1, ed):
         start = ed.out_before(pos) + same_pos_before[pos]
         tfunc = v0["func_of"].get(run["block_bases"][t])
         for k in range(len(pb)):
+            if pn == "embdata" and k in (2, 3):
+                if v1["func_of"].get(start + k) is not None:
+                    pr.append(("C06/data-never-belongs-to-a-function", "data byte %d of the patch is in %s" % (start + k, v1["func_of"].get(start + k))))
+                continue
             if v1["func_of"].get(start + k) != tfunc:
                 pr.append(("C06/inserted-code-belongs-to-the-function-of-its-block", "inserted byte %d in %s, block's function %s" % (start + k, v1["func_of"].get(start + k), tfunc)))
                 break
@@ -437,6 +443,13 @@ def c08_cfi(run, v1, ed):
                 if c1.get(start + k) is None:
                     pr.append(("C08/inserted-code-covered-by-the-enclosing-procedure", "patch %s at %d: byte %d outside" % (pn, pos, start + k)))
                     break
+            if pn == "cfidup" and len(pb) == 4 and all(c1.get(start + j) is not None for j in (0, 2)) and c1.get(start + 4) is not None:
+                import re as _re
+                offs = [_re.search(r"offset=(-?\d+)", c1[start + j][0]) for j in (0, 2, 4)]
+                if all(offs):
+                    o0, o2, o4 = (int(x.group(1)) for x in offs)
+                    if o2 - o0 != 16 or o4 != o0:
+                        pr.append(("C08/patch-directives-take-effect-inside-a-procedure", "patch at %d: CFA offset %d before, %d after two adjustments of 8, %d after the patch" % (pos, o0, o2, o4)))
             if pn == "cfi" and len(pb) >= 2 and c1.get(start) is not None and c1.get(start + 1) is not None:
                 s0, s1 = c1[start], c1[start + 1]
                 if s0[0] == s1[0]:
